@@ -25,11 +25,57 @@ def kwargs_for(h):
     return kw
 
 
+def direct_long_name(ck, tf):
+    """a database whose file name is so long that a sibling file with a suffix cannot be created (the staged rewrite needs one): whatever a rewriting
+    operation does there - complete or raise - a call that RETURNED has left its result in the file (oracle-free: the file is decoded by the
+    independent reader and compared with what the database itself iterates, and with the documented contents)"""
+    import iotie
+    import os
+    import tempfile
+    from datetime import datetime, timedelta, timezone
+    t0 = datetime(2020, 1, 1, tzinfo=timezone.utc)
+    for name_len in (253, 251, 200):
+        for auto in (True, False):
+            d = tempfile.mkdtemp(dir=str(ck.work))
+            path = os.path.join(d, "d" * (name_len - 4) + ".csv")
+            try:
+                db = tf.TinyFlux(path, auto_index=auto)
+            except OSError:
+                continue                    # the file system does not take the name at all
+            try:
+                db.insert_multiple([tf.Point(time=t0 + timedelta(seconds=i), measurement="m", tags={"k": str(i % 2)}, fields={"a": float(i)}) for i in range(4)])
+                expect = [(i, str(i % 2), float(i)) for i in range(4)]
+                for what, call, after in (
+                        ("remove(k == '0')", lambda: db.remove(tf.TagQuery().k == "0"), lambda e: [x for x in e if x[1] != "0"]),
+                        ("update(k == '1', fields={'a': 9})", lambda: db.update(tf.TagQuery().k == "1", fields={"a": 9.0}), lambda e: [(i, k, 9.0 if k == "1" else a) for i, k, a in e]),
+                        ("update_all(tags={'z': 'y'})", lambda: db.update_all(tags={"z": "y"}), lambda e: e)):
+                    try:
+                        call()
+                        expect = after(expect)
+                        returned = True
+                    except OSError:
+                        returned = False
+                    pts = iotie.decode_bytes(iotie.read_file(path), None, {})
+                    got = None if pts is None else [(int((p["time"] - 1577836800000000) // 1000000), p["tags"].get("k"), p["fields"].get("a")) for p in pts]
+                    if got != expect:
+                        ck.violation({"kind": "failing-input", "file_name_length": name_len, "auto_index": auto, "operation": what,
+                                      "the_call": "returned" if returned else "raised OSError", "file_decodes_to (second, k, a)": got,
+                                      "documented_contents (second, k, a)": expect,
+                                      "why": "after a completed operation (and after one that raised) the file does not hold the database's contents"})
+                        return 1
+            finally:
+                try:
+                    db.close()
+                except Exception:  # noqa
+                    pass
+    return 6
+
+
 def main(tier, seed):
     refused = []
     return dbtie.db_check("C04", tier, seed, PROFILE, 400, 5000, "Prop_C04",
                           "text of time / number cells and the csv module are standard-library behaviour (oracle pairs with round-trip hypotheses); "
                           "encodings are the text layer's (the file is decoded with the configured encoding by an independent reader)",
                           configs=[(True, True), (True, False)], kwargs_for=kwargs_for,
-                          pre=lambda: run_translator("py2coq_io.py", "tinyflux/storages.py", "gen/IOGen.v", refused),
+                          pre=lambda: run_translator("py2coq_io.py", "tinyflux/storages.py", "gen/IOGen.v", refused), direct=direct_long_name,
                           extra_cov={"translator_storage_scripts": dict(IO_TRANSLATOR_COV, refused=refused)})
